@@ -130,6 +130,11 @@ theorem RgbBitCount.ofU32_some {n : Nat} {b : RgbBitCount} (h : RgbBitCount.ofU3
         · cases h; assumption
         · cases h
 
+theorem Header.WF_mipmapCount' {h : Header} (hwf : h.WF) : 1 ≤ h.mipmapCount := by
+  cases h with
+  | dx9 x => exact hwf.2.2.2.1
+  | dx10 x => exact hwf.2.2.2.1
+
 /-! ### writing: flags -/
 
 theorem pitchOrLinear_flag (px : Option PixelInfo) (w h : Nat) :
@@ -199,38 +204,76 @@ theorem Dx10Header.fromRaw_toRaw (perm : Bool) (x : Dx10Header) (hv : dxgiValid 
   simp [Dx10Header.fromRaw, parseAlphaMode, hv, ResDim.ofU32_toU32, ha, AlphaMode.ofU32_toU32, h3']
   intro a b; exact absurd (h3 a) b
 
-theorem Header.fromRawNoFix_toRaw (pi : Header → Option PixelInfo) (perm : Bool) (h : Header)
-    (hwf : h.WF) : Header.fromRawNoFix perm (h.toRaw pi) = .ok h := by
-  obtain ⟨hd, hm, _⟩ := Header.toRaw_flags pi h
+/-- the pixel format `to_raw` writes parses back to this -/
+def Header.pf : Header → Dx9PixelFormat
+  | .dx9 x => x.pixelFormat
+  | .dx10 _ => .fourCC FOURCC_DX10
+
+theorem Header.fromRawNoFix_assemble {perm : Bool} {r : RawHeader}
+    (hsize : r.size = RAW_HEADER_SIZE ∨ (perm = true ∧ r.size = 24)) {p : Dx9PixelFormat}
+    (hpf : Dx9PixelFormat.fromRaw perm r.pixelFormat = .ok p) :
+    Header.fromRawNoFix perm r =
+      match r.dx10 with
+      | some d =>
+        match Dx10Header.fromRaw perm r.height r.width r.parsedDepth r.parsedMips d with
+        | .error e => .error e
+        | .ok x => .ok (.dx10 x)
+      | none => .ok (.dx9 { height := r.height, width := r.width, depth := r.parsedDepth,
+                            mipmapCount := r.parsedMips, caps2 := r.caps2, pixelFormat := p }) := by
+  unfold Header.fromRawNoFix
+  have : ¬ (r.size ≠ RAW_HEADER_SIZE ∧ ¬ (perm = true ∧ r.size = 24)) := by
+    rintro ⟨h1, h2⟩
+    rcases hsize with h | h
+    · exact h1 h
+    · exact h2 h
+  rw [if_neg this, hpf]
+  rfl
+
+theorem Header.toRaw_parsedDepth (pi : Header → Option PixelInfo) (h : Header) :
+    (h.toRaw pi).parsedDepth = h.depth := by
+  unfold RawHeader.parsedDepth
+  rw [(Header.toRaw_flags pi h).1]
+  have : (h.toRaw pi).depth = h.depth.getD 1 := by cases h <;> rfl
+  rw [this]
+  cases h.depth <;> rfl
+
+theorem parsedMips_of_flag {r : RawHeader} (hm : bitSet r.flags DDSD_MIPMAPCOUNT = true) :
+    r.parsedMips = parsedMips r.mipmapCount := by
+  unfold RawHeader.parsedMips parsedMips
+  simp [hm]
+
+theorem Header.toRaw_parsedMips (pi : Header → Option PixelInfo) (h : Header) (hm : 1 ≤ h.mipmapCount) :
+    (h.toRaw pi).parsedMips = h.mipmapCount := by
+  rw [parsedMips_of_flag (Header.toRaw_flags pi h).2.1]
+  have : (h.toRaw pi).mipmapCount = h.mipmapCount := by cases h <;> rfl
+  rw [this]
+  unfold parsedMips
+  rw [if_neg (by omega)]
+
+theorem Header.toRaw_pf (pi : Header → Option PixelInfo) (perm : Bool) (h : Header) (hwf : h.WF) :
+    Dx9PixelFormat.fromRaw perm (h.toRaw pi).pixelFormat = .ok h.pf := by
   cases h with
   | dx9 x =>
-    obtain ⟨_, _, _, hm1, _, _, hpf⟩ := hwf
-    have hm0 : x.mipmapCount ≠ 0 := by omega
-    have hpfr : Dx9PixelFormat.fromRaw perm (Header.toRaw pi (.dx9 x)).pixelFormat = .ok x.pixelFormat := by
-      cases hp : x.pixelFormat with
-      | fourCC c => simp [Header.toRaw, hp, Dx9PixelFormat.fromRaw_newFourCC]
-      | mask m =>
-        rw [hp] at hpf
-        simp [Header.toRaw, hp, Dx9PixelFormat.fromRaw_newMask perm m hpf.2.1]
-    unfold Header.fromRawNoFix
-    rw [hpfr, hd, hm]
-    obtain ⟨ht, w, dep, mc, c2, pfm⟩ := x
-    cases dep <;>
-      simp_all [Header.toRaw, RAW_HEADER_SIZE, Header.mipmapCount, Header.depth, Header.height,
-        Header.width]
-  | dx10 x =>
-    obtain ⟨_, _, _, hm1, _, hv, _, _, h3⟩ := hwf
-    have hm0 : x.mipmapCount ≠ 0 := by omega
-    have hpfr : Dx9PixelFormat.fromRaw perm (Header.toRaw pi (.dx10 x)).pixelFormat = .ok (.fourCC FOURCC_DX10) := by
-      simp [Header.toRaw, Dx9PixelFormat.fromRaw_newFourCC]
-    have hx := Dx10Header.fromRaw_toRaw perm x hv h3
-    unfold Header.fromRawNoFix
-    rw [hpfr, hd, hm]
-    obtain ⟨ht, w, dep, mc, dx, dim, misc, arr, al⟩ := x
-    cases dep <;>
-      simp_all [Header.toRaw, RAW_HEADER_SIZE, Header.mipmapCount, Header.depth, Header.height,
-        Header.width]
+    obtain ⟨_, _, _, _, _, _, hpf⟩ := hwf
+    cases hp : x.pixelFormat with
+    | fourCC c => simp [Header.toRaw, Header.pf, hp, Dx9PixelFormat.fromRaw_newFourCC]
+    | mask m =>
+      rw [hp] at hpf
+      simp [Header.toRaw, Header.pf, hp, Dx9PixelFormat.fromRaw_newMask perm m hpf.2.1]
+  | dx10 x => simp [Header.toRaw, Header.pf, Dx9PixelFormat.fromRaw_newFourCC]
 
+theorem Header.fromRawNoFix_toRaw (pi : Header → Option PixelInfo) (perm : Bool) (h : Header)
+    (hwf : h.WF) : Header.fromRawNoFix perm (h.toRaw pi) = .ok h := by
+  have hm1 := (Header.WF_mipmapCount' hwf)
+  rw [Header.fromRawNoFix_assemble (Or.inl (by cases h <;> rfl)) (Header.toRaw_pf pi perm h hwf),
+    Header.toRaw_parsedDepth, Header.toRaw_parsedMips pi h hm1]
+  cases h with
+  | dx9 x => rfl
+  | dx10 x =>
+    obtain ⟨_, _, _, _, _, hv, _, _, h3⟩ := hwf
+    have hx := Dx10Header.fromRaw_toRaw perm x hv h3
+    simp only [Header.toRaw, Header.height, Header.width, Header.depth, Header.mipmapCount]
+    rw [hx]
 
 theorem Header.toRaw_consistent (pi : Header → Option PixelInfo) (h : Header) (hwf : h.WF) :
     (h.toRaw pi).Consistent := by
@@ -604,29 +647,29 @@ theorem Dx10Header.fromRaw_WF {perm : Bool} {ht w : Nat} {dep : Option Nat} {m :
               simp only [not_and, Decidable.not_not] at hn
               exact hn h3'
 
+theorem RawHeader.parsedMips_bounds (raw : RawHeader) (hm : raw.mipmapCount < U32) :
+    1 ≤ raw.parsedMips ∧ raw.parsedMips < U32 := by
+  unfold RawHeader.parsedMips
+  simp only
+  split
+  · split
+    · exact ⟨by omega, by decide⟩
+    · exact ⟨by omega, hm⟩
+  · simp; decide
+
 theorem Header.fromRawNoFix_WF {perm : Bool} {raw : RawHeader} {h : Header}
     (hp : Header.fromRawNoFix perm raw = .ok h) (hr : raw.InRange) (hc : raw.Consistent) : h.WF := by
   have f := hr.fields
+  have hdep : optLt raw.parsedDepth U32 := by
+    unfold RawHeader.parsedDepth
+    split
+    · exact f.depth
+    · trivial
+  obtain ⟨hm1, hm2⟩ := raw.parsedMips_bounds f.mips
   unfold Header.fromRawNoFix at hp
   split at hp
   · cases hp
-  · simp only at hp
-    have hdep : optLt (if bitSet raw.flags DDSD_DEPTH = true then some raw.depth else none) U32 := by
-      split
-      · exact f.depth
-      · trivial
-    generalize hm0 : (if (bitSet raw.flags DDSD_MIPMAPCOUNT || bitSet raw.caps CAPS_COMPLEX ||
-        bitSet raw.caps CAPS_MIPMAP) = true then raw.mipmapCount else 1) = mip0 at hp
-    have hmip0 : mip0 < U32 := by
-      rw [← hm0]; split
-      · exact f.mips
-      · decide
-    have hm1 : 1 ≤ (if mip0 = 0 then 1 else mip0) := by split <;> omega
-    have hm2 : (if mip0 = 0 then 1 else mip0) < U32 := by
-      split
-      · decide
-      · exact hmip0
-    split at hp
+  · split at hp
     · cases hp
     · rename_i pfm hpf
       split at hp
@@ -740,19 +783,13 @@ theorem Header.fromRawNoFix_strict_perm {raw : RawHeader} {h : Header}
       | some d =>
         rw [hd] at hp
         simp only at hp ⊢
-        generalize hdep : (if bitSet raw.flags DDSD_DEPTH = true then some raw.depth else none) = dep at hp ⊢
-        generalize hm : (if (if (bitSet raw.flags DDSD_MIPMAPCOUNT || bitSet raw.caps CAPS_COMPLEX ||
-          bitSet raw.caps CAPS_MIPMAP) = true then raw.mipmapCount else 1) = 0 then 1
-          else (if (bitSet raw.flags DDSD_MIPMAPCOUNT || bitSet raw.caps CAPS_COMPLEX ||
-          bitSet raw.caps CAPS_MIPMAP) = true then raw.mipmapCount else 1)) = m at hp ⊢
-        cases hx : Dx10Header.fromRaw false raw.height raw.width dep m d with
+        cases hx : Dx10Header.fromRaw false raw.height raw.width raw.parsedDepth raw.parsedMips d with
         | error e => rw [hx] at hp; cases hp
         | ok x =>
           rw [hx] at hp
           rw [Dx10Header.fromRaw_strict_perm hx]
           exact hp
   · simp [hs] at hp
-
 
 /-! ### written images -/
 
